@@ -1,32 +1,13 @@
-"""Per-property parameters and dispatch."""
-import json, os, sys
+"""Dispatch: property id -> lib/prop_<ID>.py (each module has run(tier, replay_path, t0)
+and a MANIFEST_ENTRY dict used by lib/gen_manifest.py)."""
+import importlib, os, sys
 from common import *
-import wallet_checks
-
-STD_SETUP = {"nfund": 2, "pad": 3}
-WALLET_ASSUME = [
-    "LMDB commit atomicity and the file system are trusted below the hook points",
-    "secp256k1 / bulletproof / ed25519 implementations are trusted (they are used as oracles)",
-    "values are multiples of the unit U = 1e6 nanogrin (fee base set to U); nanogrin-granular arithmetic is checked by C01",
-    "the projection alpha (harness/src/world.rs) reads the store through the public WalletBackend trait",
-]
-
-WALLET = {
-    "C03": dict(quick_cfgs=["MC_C03_quick.cfg"], thorough_cfgs=["MC_C03.cfg", "MC_C03_late.cfg"],
-                quick_n=60, thorough_n=600, setup=STD_SETUP, assumptions=WALLET_ASSUME,
-                extra_behaviours=[]),
-}
 
 
 def dispatch(prop, tier, replay_path, t0):
-    if prop in WALLET:
-        p = dict(WALLET[prop])
-        if replay_path:
-            info = json.load(open(replay_path))["info"]
-            evs = [e for e in info["events"] if e["ev"] != "reset"]
-            p["extra_behaviours"] = [evs]
-            p["setup"] = info.get("setup", p["setup"])
-            p["quick_cfgs"] = p["thorough_cfgs"] = []
-        return wallet_checks.run(prop, tier, p, t0)
-    print("unknown property", prop)
-    sys.exit(2)
+    here = os.path.dirname(os.path.abspath(__file__))
+    if not os.path.exists(os.path.join(here, "prop_%s.py" % prop)):
+        print("unknown property", prop)
+        sys.exit(2)
+    mod = importlib.import_module("prop_%s" % prop)
+    return mod.run(tier, replay_path, t0)
